@@ -45,7 +45,7 @@ let ui_line l g t =
 
 let sp_line l t =
   let m = parse_formatted_number l t in
-  let s = spec_recognise l t in
+  let s = spec_stored l t in
   match known_class l t with
   | Some k when (match m with Some _ -> true | None -> false) -> "known " ^ ascii_of_text k
   | _ ->
